@@ -4,7 +4,9 @@
 // outside the scheduler's sight:
 //
 //   - Sleep parks again after waking (a scheduling point, like a channel wake);
-//   - AfterFunc runs its callback as a task of the simulation.
+//   - AfterFunc runs its callback as a task of the simulation;
+//   - Now is time.Now with the wall-clock steps of the run's fault plan applied
+//     (the monotonic reading is left alone, as a real clock step leaves it).
 //
 // time_gen.go re-exports the rest and is generated from package time's export
 // data (types as aliases, constants as constants, functions and variables as
@@ -13,6 +15,7 @@ package simtime
 
 import (
 	"time"
+	"unsafe"
 
 	"verifsim/simrt"
 )
@@ -26,4 +29,41 @@ func AfterFunc(d Duration, f func()) *Timer {
 		return time.AfterFunc(d, f)
 	}
 	return time.AfterFunc(d, func() { simrt.RunCallback("time.AfterFunc", f) })
+}
+
+// Now is time.Now. In a run whose fault plan has wall-clock steps (NTP
+// correction, VM resume) the wall reading is moved by the steps that have
+// happened so far, and the value carries a monotonic reading (which a step does
+// not touch) the way time.Now's values do outside a synctest bubble - inside
+// one they have none, so that there would be nothing for a step to leave alone.
+func Now() Time {
+	t := time.Now()
+	skew, mono, on := simrt.WallClock()
+	if !on {
+		return t
+	}
+	return withMono(t.Add(skew), mono)
+}
+
+// withMono gives t (a Time without a monotonic reading) the monotonic reading
+// mono, in the encoding of package time: wall = 1<<63 | seconds since 1885 <<
+// 30 | nanoseconds, ext = monotonic nanoseconds.
+func withMono(t time.Time, mono time.Duration) time.Time {
+	type repr struct {
+		wall uint64
+		ext  int64
+		loc  *time.Location
+	}
+	r := (*repr)(unsafe.Pointer(&t))
+	if r.wall&(1<<63) != 0 {
+		return t
+	}
+	const wallToInternal = (1884*365 + 1884/4 - 1884/100 + 1884/400) * 86400
+	sec := r.ext - wallToInternal
+	if sec < 0 || sec >= 1<<33 {
+		return t
+	}
+	r.wall = 1<<63 | uint64(sec)<<30 | r.wall&(1<<30-1)
+	r.ext = int64(mono)
+	return t
 }
